@@ -372,7 +372,110 @@ func (c *ctxRun) submitCases(n int) error {
 		}
 		return s
 	}
+	// messages with several (index, proof) pairs over one data item whose shards are all
+	// different: which proof stands at which index is what is varied
+	genMulti := func() sub {
+		var s sub
+		nS := len(z.shardHash)
+		perm := make([]int, nS)
+		for i := range perm {
+			perm[i] = i
+		}
+		for i := nS - 1; i > 0; i-- {
+			j := r.Intn(i + 1)
+			perm[i], perm[j] = perm[j], perm[i]
+		}
+		nh := 2 + r.Intn(nS-2) // 2 .. nS-1 distinct shards, at least one pool shard stays outside
+		s.hashes = append(s.hashes, perm[:nh]...)
+		outside := perm[nh:]
+		np := 2 + r.Intn(3)
+		if np > nh {
+			np = nh
+		}
+		idx := make([]int, nh)
+		for i := range idx {
+			idx[i] = i
+		}
+		for i := nh - 1; i > 0; i-- {
+			j := r.Intn(i + 1)
+			idx[i], idx[j] = idx[j], idx[i]
+		}
+		for i := 0; i < np; i++ { // np different indices, each with the honest proof of its shard
+			s.indices = append(s.indices, int64(idx[i]))
+			s.proofs = append(s.proofs, s.hashes[idx[i]])
+		}
+		a, b := 0, 1+r.Intn(np-1) // two positions in the message
+		switch r.Intn(11) {
+		case 0:
+			s.tag = "multi:valid"
+		case 1: // the proof of an earlier, valid pair repeated under another index
+			s.tag = "multi:repeated-proof-under-later-index"
+			s.proofs[b] = s.proofs[a]
+		case 2: // ... and the other way round: the wrong use comes first
+			s.tag = "multi:repeated-proof-under-earlier-index"
+			s.proofs[a] = s.proofs[b]
+		case 3: // one more pair at the end: an unused index with the bytes of a proof already listed
+			s.tag = "multi:appended-pair-reusing-a-proof"
+			if np < nh {
+				s.indices = append(s.indices, int64(idx[np]))
+			} else {
+				s.indices = append(s.indices, s.indices[b])
+			}
+			s.proofs = append(s.proofs, s.proofs[a])
+		case 4:
+			s.tag = "multi:swapped-proofs"
+			s.proofs[a], s.proofs[b] = s.proofs[b], s.proofs[a]
+		case 5: // a proof made for a shard of another data item / another validator's shard
+			s.tag = "multi:proof-of-a-shard-outside-this-item"
+			s.proofs[r.Intn(np)] = outside[r.Intn(len(outside))]
+		case 6: // the same index twice, same proof bytes
+			s.tag = "multi:same-index-twice"
+			s.indices = append(s.indices, s.indices[a])
+			s.proofs = append(s.proofs, s.proofs[a])
+		case 7: // the same index twice, the second time with the proof of another shard
+			s.tag = "multi:same-index-twice-second-proof-wrong"
+			s.indices = append(s.indices, s.indices[a])
+			s.proofs = append(s.proofs, s.proofs[b])
+		case 8: // every proof equal to the first one
+			s.tag = "multi:one-proof-for-all-indices"
+			for i := range s.proofs {
+				s.proofs[i] = s.proofs[0]
+			}
+		case 9: // valid pairs, then a forged proof
+			s.tag = "multi:last-proof-forged"
+			for _, p := range z.proofs {
+				if strings.HasPrefix(p.kind, "forged") {
+					s.proofs[np-1] = p.id
+					break
+				}
+			}
+		default: // a different, independently randomised proof of the same statement is fine
+			s.tag = "multi:valid-with-second-proof-of-shard-0"
+			pos := -1
+			for i, id := range s.hashes {
+				if id == 0 {
+					pos = i
+				}
+			}
+			if pos < 0 { // shard 0 was outside: put it in
+				pos = idx[0]
+				s.hashes[pos] = 0
+			}
+			s.indices, s.proofs = nil, nil
+			for i := 0; i < np; i++ {
+				s.indices = append(s.indices, int64(idx[i]))
+				s.proofs = append(s.proofs, s.hashes[idx[i]])
+			}
+			s.indices = append(s.indices, int64(pos))
+			s.proofs = append(s.proofs, 6) // pool proof 6 = "honest-second" for shard 0
+		}
+		return s
+	}
 	corpus := []sub{
+		{hashes: []int{0, 1}, indices: []int64{0, 1}, proofs: []int{0, 0}, tag: "corpus:multi:repeated-proof-under-later-index"},
+		{hashes: []int{0, 1}, indices: []int64{1, 0}, proofs: []int{0, 0}, tag: "corpus:multi:repeated-proof-under-earlier-index"},
+		{hashes: []int{0, 1}, indices: []int64{0, 1}, proofs: []int{1, 0}, tag: "corpus:multi:swapped-proofs"},
+		{hashes: []int{0, 1, 2}, indices: []int64{0, 1, 2}, proofs: []int{0, 1, 2}, tag: "corpus:multi:valid"},
 		{hashes: []int{0}, indices: []int64{0}, proofs: []int{0}, tag: "corpus:valid"},
 		{hashes: []int{0}, indices: []int64{}, proofs: []int{}, tag: "corpus:empty"},
 		{hashes: []int{0, 1}, indices: []int64{1}, proofs: []int{0}, tag: "corpus:proof-of-shard-0-at-index-1"},
@@ -382,7 +485,11 @@ func (c *ctxRun) submitCases(n int) error {
 	}
 	all := append([]sub{}, corpus...)
 	for len(all) < n {
-		all = append(all, gen())
+		if r.Bool() {
+			all = append(all, genMulti())
+		} else {
+			all = append(all, gen())
+		}
 	}
 	for ci, s := range all {
 		uri := fmt.Sprintf("ipfs://c20/%d", ci)
@@ -456,8 +563,31 @@ func (c *ctxRun) submitCases(n int) error {
 		for i, id := range s.proofs {
 			ps[i] = int64(id)
 		}
-		term := fmt.Sprintf("CSubmit {| su_indices := %s; su_proofs := %s; su_hashes := %s; su_parse := %s; su_verify := %s; su_obs := %s |}",
-			coqZs(s.indices), coqZs(ps), coqZs(hs), emit.List(parseT), emit.List(verT), obs)
+		// the stored result: the Proof record of (this item, this validator) after the call
+		stored := "None"
+		rec, found, gerr := h.App.DaKeeper.GetProof(ctx, uri, valBz)
+		if gerr != nil {
+			return gerr
+		}
+		if found {
+			sp := make([]int64, len(rec.Proofs))
+			for i, bz := range rec.Proofs {
+				sp[i] = -1
+				for _, p := range z.proofs {
+					if bytes.Equal(p.bytes, bz) {
+						sp[i] = int64(p.id)
+						break
+					}
+				}
+			}
+			stored = fmt.Sprintf("(Some (%s, %s))", coqZs(rec.Indices), coqZs(sp))
+			info["stored_indices"], info["stored_proof_ids"] = rec.Indices, sp
+			c.st.Count("submit:record-stored")
+		} else {
+			c.st.Count("submit:nothing-stored")
+		}
+		term := fmt.Sprintf("CSubmit {| su_indices := %s; su_proofs := %s; su_hashes := %s; su_parse := %s; su_verify := %s; su_obs := %s; su_stored := %s |}",
+			coqZs(s.indices), coqZs(ps), coqZs(hs), emit.List(parseT), emit.List(verT), obs, stored)
 		c.cf.Add(term)
 		kinds := make([]string, len(s.proofs))
 		for i, id := range s.proofs {
@@ -510,8 +640,14 @@ func (c *ctxRun) submitCases(n int) error {
 	}); err != nil {
 		return fmt.Errorf("c20: empty submission rejected: %w", err)
 	}
-	term := fmt.Sprintf("CSubmit {| su_indices := []; su_proofs := []; su_hashes := [0]; su_parse := %s; su_verify := %s; su_obs := (Ok tt) |}",
-		emit.List(parseT), emit.List(verT))
+	storedM := "None"
+	if rec, found, gerr := h.App.DaKeeper.GetProof(ctx, uri, valBz); gerr != nil {
+		return gerr
+	} else if found {
+		storedM = fmt.Sprintf("(Some (%s, %s))", coqZs(rec.Indices), coqZs(make([]int64, len(rec.Proofs))))
+	}
+	term := fmt.Sprintf("CSubmit {| su_indices := []; su_proofs := []; su_hashes := [0]; su_parse := %s; su_verify := %s; su_obs := (Ok tt); su_stored := %s |}",
+		emit.List(parseT), emit.List(verT), storedM)
 	c.cf.Add(term)
 	pk := map[string]string{}
 	for _, p := range z.proofs {
